@@ -153,6 +153,11 @@ def make_system(rng: PlanRng):
     bv = sig(rng.uniform(0.05, 0.6, n_rec)) if base == "v" else 0.0
     lb = sig(rng.uniform(0.05, 0.3, n_src)) if rng.coin(0.25) else None
     ub = sig(rng.uniform(1.0, 6.0, n_src)) if rng.coin(0.9) else None
+    # capture units are arbitrary: a "dim" system has all captures around 1e-9 .. 1e-10
+    unit = float(rng.choice([1.0, 1e-9, 1e-10], p=[0.88, 0.06, 0.06]))
+    if unit != 1.0:
+        S = S * unit
+        bv = bv * unit if base == "v" else 0.0
     pinned = None
     if ub is not None and n_src > n_rec and rng.coin(0.2):
         # one source pinned to a positive constant (an always-on background light):
@@ -161,7 +166,7 @@ def make_system(rng: PlanRng):
         lb = np.zeros(n_src) if lb is None else np.array(lb, copy=True)
         lb[pinned] = ub[pinned] = float(sig(rng.uniform(0.3, 2.0)))
     return {"F": F, "S": S, "K": Kv, "baseline": bv, "lb": lb, "ub": ub,
-            "n_rec": n_rec, "n_src": n_src, "pinned": pinned}
+            "n_rec": n_rec, "n_src": n_src, "pinned": pinned, "unit": unit}
 
 
 # ----------------------------------------------------------------------------
@@ -194,7 +199,8 @@ def random_call(rng: PlanRng, plan_ctx, mode, tier):
     if tgt == "est":
         c["relative"] = rng.coin(0.75)
         if rng.coin(0.35):
-            c["l1"] = float(sig(rng.choice([0.3, 1.0, 2.5, 6.0, 15.0]) * rng.uniform(0.8, 1.25)))
+            c["l1"] = float(sig(rng.choice([0.3, 1.0, 2.5, 6.0, 15.0]) * rng.uniform(0.8, 1.25)
+                                * plan_ctx.get("unit", 1.0)))
     return c
 
 
@@ -211,7 +217,7 @@ def generate(rs, mode, tier, index):
         clouds[f"P{j}"] = {"cls": cls, "P": make_cloud(rng, dim, cls)}
     sysd = make_system(rng) if rng.coin(0.6) or mode == "uniform" and rng.coin(0.5) else None
     targets = list(clouds) + (["est"] if sysd else [])
-    ctx = {"targets": targets}
+    ctx = {"targets": targets, "unit": 1.0 if sysd is None else sysd.get("unit", 1.0)}
     ops = []
     n_calls = rng.integers(3, 12)
     perturb_p = 0.5 if mode != "clean" else 0.25
@@ -275,7 +281,7 @@ def generate(rs, mode, tier, index):
             if kind == "K":
                 val = sig(rng.uniform(0.3, 2.0, sysd["n_rec"]))
             elif kind == "baseline":
-                val = sig(rng.uniform(0.05, 0.6, sysd["n_rec"]))
+                val = sig(rng.uniform(0.05, 0.6, sysd["n_rec"])) * sysd.get("unit", 1.0)
             elif kind == "ub":
                 val = sig(rng.uniform(1.0, 6.0, sysd["n_src"]))
                 if sysd.get("pinned") is not None:
@@ -324,7 +330,12 @@ def lp_in_gamut(s, sysd, relative, A, lb, ub):
     base = np.asarray(sysd["baseline"], float) if relative else 0.0
     Aeq = A * (np.broadcast_to(K, (A.shape[0],))[:, None])
     beq = s - np.broadcast_to(K * base, (A.shape[0],))
-    scale = max(1.0, float(np.max(np.abs(s))))
+    # work in the system's own capture unit (a dim system has captures around 1e-9): the unit
+    # of the *relative* capture is that of K times the unit of the absolute one
+    unit = max(float(np.max(np.abs(Aeq))), 1e-300)
+    unit = unit if unit < 1e-3 else 1.0
+    Aeq, beq = Aeq / unit, beq / unit
+    scale = max(1.0, float(np.max(np.abs(s))) / unit)
     tol = 1e-7 * scale
     # feasibility with slack: minimise t s.t. |Aeq x - beq| <= t
     n = A.shape[1]
@@ -617,7 +628,7 @@ def execute(plan):
                 l1 = c.get("l1")
                 if l1 is not None:
                     tot = Sm.sum(1)
-                    if np.max(np.abs(tot - l1)) > 1e-9 * max(1.0, abs(l1)):
+                    if np.max(np.abs(tot - l1)) > 1e-9 * max(sysd.get("unit", 1.0), abs(l1)):
                         raise Violation(ID, "l1_not_met", f"requested total {l1}, got totals up "
                                         f"to {np.max(np.abs(tot - l1)):.3g} away for {c}",
                                         call=c, op=oi)
@@ -635,7 +646,8 @@ def execute(plan):
                             l1_covers_all_chromaticities=bool(safe))
                 if ub is not None and l1 is None:
                     worst, h = facet_violation(Sm, Q)
-                    if worst > 1e-9 * max(1.0, float(np.max(np.abs(Q)))):
+                    if worst > 1e-9 * max(min(1.0, float(np.max(np.abs(Q)))),
+                                          float(np.max(np.abs(Q)))):
                         raise Violation(ID, "sample_outside_gamut",
                                         f"a sample of {c} lies {worst:.3g} outside the gamut's "
                                         f"facets", call=c, op=oi, l1_requested=False,
